@@ -52,6 +52,10 @@ CLAIMED["C06"] = dict(technique="differential testing across the three real driv
 CLAIMED["C11"] = dict(technique="differential testing of the real binary across sampled schedules (byte comparison of per-package JSON, report order included) on rapid-generated 4-8 package programs, plus a -race build of the driver and in-process parallel-vs-sequential comparison",
     text="Each generated program is analysed by the standalone binary under 8 schedules (repeat, -debug=p, GOMAXPROCS 1/2/16, permuted package arguments, subset of roots); the per-package JSON must be byte-identical to the default run. A share of the programs also runs under a race-instrumented build (DATA RACE = violation) and every program is analysed in-process in parallel twice and compared with the sequential result.",
     note="schedules are sampled, not enumerated: an interleaving-specific logic bug without a data race and without an effect under the sampled schedules can escape (stated in DESIGN.md section 6)", ref="DESIGN.md section 3, C11")
+
+CLAIMED["C09"] = dict(technique="zero-diagnostic oracle over (a) real-world corpora after an independent precondition filter, through the real binary, and (b) rapid-generated annotation-free programs salted with near-miss comments",
+    text="Packages of the standard library (thorough: all of std and the repository's dependencies from the module cache) that an independent go/parser scan finds free of annotation-like comment lines are analysed by the real binary under default, scan-tests and empty exclude-paths configurations; generated programs containing every site family but no annotation are salted with malformed keyword comments and with well-formed annotation lines at inert attachment sites. Any diagnostic is a violation.",
+    note="corpus = what loads offline here (go1.23.5 std via the repository's toolchain switch, module cache); packages with load errors are counted and not judged", ref="DESIGN.md section 3, C09")
 ALL = ["C%02d" % i for i in range(1, 20)]
 NA_REASON = {}
 def main():
